@@ -110,6 +110,7 @@ type World struct {
 	stopOps         int
 	obsBusy         bool
 	jumping         bool
+	triggers        map[string][]func()
 }
 
 // Now returns simulated time since the start of the run.
@@ -605,6 +606,35 @@ func (w *World) pump(a *actor) {
 			return
 		}
 		o.onDone = func() { w.pump(a) }
+		if tr := o.Op.Trigger; tr != "" {
+			o.scheduled = true
+			if w.triggers == nil {
+				w.triggers = map[string][]func(){}
+			}
+			fired := false
+			w.triggers[tr] = append(w.triggers[tr], func() {
+				if fired || o.Done {
+					return
+				}
+				fired = true
+				w.Faults["sim.trigger_fired"]++
+				o.Issued = true
+				w.issue(o)
+				w.pump(a)
+			})
+			d := o.Op.D.D()
+			if d == 0 {
+				d = 5 * time.Second
+			}
+			w.after(d, "trigger-expired", func() {
+				if !fired {
+					fired = true
+					o.Issued = true
+					w.finish(o, "skipped")
+				}
+			})
+			return
+		}
 		if d := o.Op.Delay.D(); d > 0 {
 			o.scheduled = true
 			w.after(d, "issue", func() { o.Issued = true; w.issue(o); w.pump(a) })
@@ -612,6 +642,17 @@ func (w *World) pump(a *actor) {
 		}
 		o.Issued = true
 		w.issue(o)
+	}
+}
+
+// FireTrigger issues the operations waiting for the named trigger (simulator context).
+//
+//go:norace
+func (w *World) FireTrigger(name string) {
+	fs := w.triggers[name]
+	delete(w.triggers, name)
+	for _, f := range fs {
+		f()
 	}
 }
 
